@@ -14,6 +14,11 @@ Wraps   == {"none", "function", "method", "if", "try", "with", "nested", "async"
 Layouts == {"lf", "crlf", "nofinalnl", "tabs", "comments", "blanklines", "bom"}
 Mults   == {1, 2}
 Imports == {"asis", "local", "decoy"}   \* decoy: an unrelated function imports locally what the fix needs
+\* how the argument list of the call(s) on the lines the fix touches is extended (C16: "every other argument ... is
+\* preserved", and in its place): a trailing `**extra_kw`, a `**extra_kw` in front of the keyword arguments, one more
+\* keyword argument, a `**extra_map` entry in every dict literal passed to the call; and (C18: several sites on one
+\* line) the expression of the touched statement written twice, as a pair, on the same line
+Args    == {"asis", "kwspread-last", "kwspread-mid", "extra-kw", "dict-spread", "same-line-pair"}
 
 VARIABLES v, st
 
@@ -22,10 +27,11 @@ Compatible(x) ==
   /\ (x.imp = "local") => x.wrap \in {"none", "if", "try", "loop"}     \* keep nesting depth bounded
   /\ (x.wrap = "async") => x.mult = 1
   /\ (x.imp = "decoy") => x.mult = 1
+  /\ (x.args # "asis") => (x.mult = 1 /\ x.imp = "asis" /\ x.layout \in {"lf", "crlf", "comments"})
 
 Init == /\ st = "init"
-        /\ \E w \in Wraps, l \in Layouts, m \in Mults, i \in Imports :
-             /\ v = [wrap |-> w, layout |-> l, mult |-> m, imp |-> i]
+        /\ \E w \in Wraps, l \in Layouts, m \in Mults, i \in Imports, a \in Args :
+             /\ v = [wrap |-> w, layout |-> l, mult |-> m, imp |-> i, args |-> a]
              /\ Compatible(v)
 Next == st = "init" /\ st' = "done" /\ UNCHANGED v
 Spec == Init /\ [][Next]_<<v, st>>
